@@ -60,14 +60,18 @@ def _key(v):
     return repr(sorted(d.items())) if d is not None else repr(v)
 
 
-def _show(v):
+def _show(v, depth=0):
+    if depth > 6:
+        return repr(v)[:80]
+    if callable(v) and not isinstance(v, type):
+        return getattr(v, "__name__", "callable")
     if isinstance(v, dict):
-        return {k: _show(x) for k, x in v.items()}
+        return {str(k): _show(x, depth + 1) for k, x in v.items()}
     if isinstance(v, (int, str, bool)) or v is None:
         return v
     if isinstance(v, (list, tuple)):
-        return [_show(x) for x in v[:30]]
+        return [_show(x, depth + 1) for x in v[:30]]
     d = getattr(v, "__dict__", None)
     if d is not None:
-        return {"class": type(v).__name__, **{k: _show(x) for k, x in d.items() if k in ("start", "stop", "step", "values", "op", "value", "_scenario", "source_entity_id", "sink_entity_id")}}
+        return {"class": type(v).__name__, **{k: _show(x, depth + 1) for k, x in d.items() if k in ("start", "stop", "step", "values", "op", "value", "_scenario", "source_entity_id", "sink_entity_id")}}
     return repr(v)[:80]
